@@ -61,115 +61,10 @@ def token_scan(args):
     return bad
 
 
-HEAP_KIND = {"rsa_priv": ("RSA1024", True), "ec_priv": ("EC:P-256", True), "ec_pub": ("EC:P-384", False), "okp_pub": ("OKP:Ed25519", False),
-             "oct": ("oct256", True)}
-ALL_PRIVATE_NAMES = {"d", "p", "q", "dp", "dq", "qi", "oth", "k"}
-
-
-_BYTES: dict = {}
-
-
-def _key_bytes(kind, idx, src, priv):
-    from cryptography.hazmat.primitives import serialization as S
-    if (kind, idx, src, priv) not in _BYTES:
-        native = R.jwk_to_native(K.get(kind, idx), True)
-        enc = S.Encoding.PEM if src == "pem" else S.Encoding.DER
-        _BYTES[(kind, idx, src, priv)] = (native.private_bytes(enc, S.PrivateFormat.PKCS8, S.NoEncryption()) if priv
-                                          else native.public_key().public_bytes(enc, S.PublicFormat.SubjectPublicKeyInfo))
-    return _BYTES[(kind, idx, src, priv)]
-
-
-def heap_replay(hist):
-    """one JwkHeap.tla behaviour on real key objects that share the caller's parameter dictionaries -> list of failures"""
-    from joserfc.jwk import JWKRegistry, KeySet
-    from cryptography.hazmat.primitives import serialization as S
-    objs = {"P": {"use": "sig"}, "Q": {"x5t": "dGh1bWI", "alg": "custom-alg"}, "none": None}
-    keep = json.loads(json.dumps(objs))
-    keys, jwks, fails = {}, {}, []
-    needles = []
-
-    def judge(step, i, outs, predicted):
-        names = set()
-        for o in outs:
-            if isinstance(o, dict):
-                for d in (o["keys"] if "keys" in o else [o]):
-                    names |= set(d) & ALL_PRIVATE_NAMES
-            if jwkchains.scan(o, needles):
-                fails.append((f"step {i} {step['op']}({step['k']}): private octets of a key of this process in a public output", ""))
-        if names != {n for _, n in predicted}:
-            fails.append((f"step {i} {step['op']}({step['k']}): private-named members {sorted(names)} in a public export (model: {predicted})", ""))
-
-    for i, st in enumerate(hist):
-        k = st["k"]
-        try:
-            if st["op"] == "build":
-                kind, priv = HEAP_KIND[st["kind"]]
-                jwk = K.get(kind, 0 if k == "a" else 1)
-                jwks[k] = jwk
-                if priv and jwk["kty"] != "oct":
-                    needles.extend(jwkchains.secret_needles(jwk))
-                form = dict(jwk) if priv else R.public_jwk(jwk)
-                if st["src"] == "jwk":
-                    keys[k] = JWKRegistry.import_key(form, parameters=objs[st["params"]])
-                else:
-                    keys[k] = JWKRegistry.import_key(_key_bytes(kind, 0 if k == "a" else 1, st["src"], priv), jwk["kty"], objs[st["params"]])
-            elif st["op"] == "touch":
-                keys[k].kid                                      # first use of the JWK view
-            elif st["op"] == "public_export":
-                outs = [keys[k].as_dict(private=False)]
-                if jwks[k]["kty"] != "oct":
-                    outs += [keys[k].as_pem(private=False), keys[k].as_der(private=False)]
-                judge(st, i, outs, st["out"])
-            elif st["op"] == "set_public_export":
-                judge(st, i, [KeySet([keys["a"], keys["b"]]).as_dict(private=False)], st["out"])
-        except Exception as e:  # noqa
-            fails.append((f"step {i} {st['op']}({k}) raised {type(e).__name__}", str(e)[:80]))
-            break
-    drift = [n for n in ("P", "Q") if objs[n] != keep[n]]
-    return fails, drift
-
-
-def heap_chunk(hists):
-    return [(h, *heap_replay(h)) for h in hists]
-
-
-def heap_pass(ctx: Ctx):
-    import random
-    r = ctx.tlc("JwkHeap", "JwkHeap" if ctx.tier == "thorough" else "JwkHeap_quick", timeout=900)
-    for d in ("ViewBuiltInCallerDict", "ParamsWrittenBack"):
-        ctx.sensitivity("JwkHeap", "JwkHeap_dev_" + d)
-    hists = list({json.dumps(c["hist"], sort_keys=True): c["hist"] for c in r.cases}.values())
-    if len(hists) < 20000:
-        raise MachineryError(f"JwkHeap export too small: {len(hists)}")
-
-    def shares(h):          # two keys built over the same caller dictionary, a lazily built view among them, and an export
-        b = [s for s in h if s["op"] == "build"]
-        return (len(b) == 2 and b[0]["params"] == b[1]["params"] != "none" and any(s["src"] != "jwk" for s in b)
-                and any(s["op"].endswith("export") for s in h))
-    rnd = random.Random(ctx.seed)
-    chosen = [h for h in hists if shares(h)]
-    rest = [h for h in hists if not shares(h)]
-    chosen += rnd.sample(rest, min(len(rest), 20000 if ctx.tier == "thorough" else 2000))
-    if ctx.tier != "thorough" and len(chosen) > 9000:
-        chosen = rnd.sample(chosen, 9000)
-    res = pmap(heap_chunk, [chosen[i::64] for i in range(64)], chunksize=1)
-    ndrift = 0
-    for chunk in res:
-        for h, fails, drift in chunk:
-            ctx.evaluations += 1
-            ctx.nontrivial.add("heap:" + json.dumps(h, sort_keys=True))
-            for what, detail in fails:
-                ops = " ".join(f"{s['op']}({s['k']}" + (f":{s['kind']},{s['src']},{s['params']}" if s["op"] == "build" else "") + ")" for s in h)
-                ctx.violation(f"heap:{what.split(': ', 1)[-1].split(' (model')[0]} history=[{ops}]", {"hist": h, "what": what, "detail": detail})
-            if drift:
-                ndrift += 1
-                ctx.note_drift({"hist": h, "caller_dictionaries_modified": drift})
-    ctx.notes["heap_histories"] = {"exported": len(hists), "sharing": len(hists) - len(rest), "replayed": len(chosen)}
-
-
 def run(ctx: Ctx) -> None:
     jwkchains.execute(ctx, "C12")
-    heap_pass(ctx)
+    from . import jwkheap
+    jwkheap.run(ctx, "C12")
     tasks = [("jws", a, k) for a, k in ALGS] + [("jwe", a, "A128CBC-HS256" if a.startswith("ECDH-1PU+") else "A128GCM") for a in R.JWE_ALGS + R.JWE_1PU]
     res = pmap(token_scan, tasks, procs=8, chunksize=1)
     for bad in res:
